@@ -45,6 +45,13 @@ Conserved(u) == LET q == Ev.quiescent[u] IN
 NoDup(s) == Cardinality(ToSet(s)) = Len(s)
 ExactlyOnce(u) == LET q == Ev.quiescent[u] IN
                   q.known => \A ref \in DOMAIN q.lsns : NoDup(q.lsns[ref]) /\ ToSet(q.lsns[ref]) = LsnsSent(u, ref)
+\* the CDR file of the subscriber, as its last writer left it, holds only records the CHF holds (same reference, same
+\* containers in the same order): the writers of one subscriber are serialised by its lock, so the last write shows
+\* the final state of every record it contains
+FileConsistent(u) == LET q == Ev.quiescent[u] IN
+                     q.known => /\ q.fileOk
+                                /\ \A i \in 1..Len(q.fileRecs) : \E j \in 1..Len(q.memRecs) :
+                                       q.fileRecs[i].ref = q.memRecs[j].ref /\ q.fileRecs[i].lsns = q.memRecs[j].lsns
 AllRefsRecorded(u) == LET q == Ev.quiescent[u] IN
                       \A i \in UsedBy(u).r : q.known /\ Res[i].ref \in DOMAIN q.lsns /\ Res[i].lsn \in ToSet(q.lsns[Res[i].ref])
 
@@ -57,6 +64,7 @@ Step ==
        \cup (IF \E a, b \in Acked : a # b /\ Res[a].ref = Res[b].ref THEN {V("refs_unique", Sit)} ELSE {})
        \cup (IF ~Ev.missed /\ \E u \in DOMAIN Ev.quiescent : ~Conserved(u) THEN {V("quiescent_conservation", Sit)} ELSE {})
        \cup (IF ~Ev.missed /\ \E u \in DOMAIN Ev.quiescent : ~(ExactlyOnce(u) /\ AllRefsRecorded(u)) THEN {V("quiescent_exactly_once", Sit)} ELSE {})
+       \cup (IF ~Ev.missed /\ \E u \in DOMAIN Ev.quiescent : ~FileConsistent(u) THEN {V("quiescent_file_matches", Sit)} ELSE {})
        \cup (IF MutexBroken THEN {V("mutual_exclusion", Sit)} ELSE {})
        \cup (IF UnlockedWrites # {} THEN {V("lockset_discipline", [Sit EXCEPT !.mix = {"recharge"}])} ELSE {})
        \cup (IF ContextOverwritten THEN {V("subscriber_context_unique", Sit)} ELSE {})
